@@ -461,8 +461,9 @@ class Interp:
         if f in ("shift_left", "shift_right"):
             a = self.ev(args[0], p, ctx)
             n = self.ev(args[1], p, None)
-            if a[0] != "uns":
-                raise LiftError(f"{f} on {a[0]} (numeric_std defines it for UNSIGNED/SIGNED)")
+            akind = a[0] if a[0] != "str" else (ctx[0] if ctx is not None else "str")   # a literal takes the type the context demands
+            if akind != "uns":
+                raise LiftError(f"{f} on {'slv' if akind in ('slv', 'str') else akind} (numeric_std defines it for UNSIGNED/SIGNED)")
             if n[0] != "int":
                 raise LiftError(f"{f}: count is not an integer")
             w, c = len(a[1]), n[1]
